@@ -971,6 +971,12 @@ func engineCuts(f *rep.Flags, res *rep.Result) {
 	close(jobs)
 	wg.Wait()
 	for _, c := range sequential {
+		// these cases run one at a time: if the code under test kills the process, the runner knows
+		// which case was running
+		if jp := os.Getenv("VSCHED_JOURNAL"); jp != "" {
+			jb, _ := json.Marshal(map[string]any{"engine": "cuts", "case": c})
+			os.WriteFile(jp, jb, 0o644)
+		}
 		v, sig := runCutCase(c)
 		res.Evaluations++
 		res.States++
@@ -980,6 +986,9 @@ func engineCuts(f *rep.Flags, res *rep.Result) {
 			suspects = append(suspects, c)
 			_ = sig
 		}
+	}
+	if jp := os.Getenv("VSCHED_JOURNAL"); jp != "" {
+		os.Remove(jp)
 	}
 	vsched.SetGate("mux.queue", nil)
 	// confirmation pass: a suspect must fail three times in a row, alone, to be believed
@@ -1018,8 +1027,7 @@ func main() {
 	f := rep.ParseFlags()
 	res := &rep.Result{Property: f.Prop, Engine: "faults/" + f.Engine, Exhaustive: true, Bounds: map[string]any{}}
 	if f.Replay != "" {
-		fmt.Println("replay: re-run the engine; cases are deterministic enumerations (see the case description in the replay file)")
-		os.Exit(0)
+		os.Exit(replayFaults(f))
 	}
 	switch f.Engine {
 	case "answers":
@@ -1062,4 +1070,67 @@ func main() {
 		rep.Fatal(f, "unknown engine %q", f.Engine)
 	}
 	res.Write(f)
+}
+
+// replayFaults re-executes the one case named by a replay file.
+func replayFaults(f *rep.Flags) int {
+	logrus.SetOutput(io.Discard)
+	b, err := os.ReadFile(f.Replay)
+	if err != nil {
+		rep.Fatal(f, "%v", err)
+	}
+	var w struct {
+		Property string `json:"property"`
+		Engine   string `json:"engine"`
+		Replay   struct {
+			Engine  string   `json:"engine"`
+			Case    cutCase  `json:"case"`
+			Call    string   `json:"call"`
+			Answers []string `json:"answers"`
+		} `json:"replay"`
+	}
+	if err := json.Unmarshal(b, &w); err != nil {
+		rep.Fatal(f, "%v", err)
+	}
+	adaptation.SetPluginRequestTimeout(reqTimeout)
+	var v []string
+	switch w.Replay.Engine {
+	case "answers":
+		var vec []int
+		for _, n := range w.Replay.Answers {
+			for i := range answers {
+				if answers[i].name == n {
+					vec = append(vec, i)
+				}
+			}
+		}
+		if len(vec) != len(w.Replay.Answers) {
+			rep.Fatal(f, "unknown answer name in %v", w.Replay.Answers)
+		}
+		v, _, _ = runAnswerCase(len(vec), vec, findCall(w.Replay.Call))
+		fmt.Printf("case: %s answers=%v\n", w.Replay.Call, w.Replay.Answers)
+	default:
+		if strings.HasSuffix(w.Engine, "cutsched") {
+			ttrpc.VerifDispatchDelayNS = int64(30 * time.Millisecond)
+			fmt.Println("schedule: every caller held for 30 ms between sending its request and waiting for the answer")
+		}
+		if w.Replay.Case.Call == "" {
+			fmt.Println("this finding (a crash of the worker process during the parallel phase) does not name one case: re-run the check")
+			return 0
+		}
+		fmt.Printf("case: %s\n", w.Replay.Case.String())
+		// which error a call in flight sees can depend on the schedule: up to 20 executions
+		for try := 0; try < 20 && len(v) == 0; try++ {
+			v, _ = runCutCase(w.Replay.Case)
+		}
+	}
+	for _, m := range v {
+		fmt.Println("  ", firstLines(m, 12))
+	}
+	if len(v) > 0 {
+		fmt.Printf("VIOLATION property=%s replay=%s\n", w.Property, f.Replay)
+		return 1
+	}
+	fmt.Println("no violation")
+	return 0
 }
